@@ -28,7 +28,9 @@ RULE = ("name and base built from 0-3 segments out of {a, b, x.y, .h, .., ., '',
         "leave the block normally or by an exception (the exit is one more observed call); histories also wrap the Filer "
         "in a FilerDoer run by a real Doist (injected temp None/True/False, Filer opened or closed beforehand, normal end "
         "or forced exit at the time limit; enter and exit observed separately; close / reopen / remake calls on the filer "
-        "between enter and exit; two doers sharing one filer); .temp is observed after every call, snapshotting after every call (the walk starts 6 directories "
+        "between enter and exit; two doers sharing one filer); a stream gives the Filer a RELATIVE headDirPath (data, ./data, "
+        "a/../data, ~/data, ...) and moves the working directory between the calls, with another instance's resources at "
+        "the same relative place under the other working directory (.path must be absolute; .temp is observed after every call, snapshotting after every call (the walk starts 6 directories "
         "above the sandbox root, so escapes show up as ../ paths); thorough enumerates all 16 flag sets x all name/base pairs of <= 2 segments; non-trivial "
         "= a dotted segment ('.', '..' or '...'), or temp with filed, extensioned or clean, or a history of >= 2 calls or "
         "with a clearing temp flip")
@@ -93,7 +95,7 @@ def directed():
             for owner in (3, 4, 5):
                 c = with_siblings(mk("x", "b", temp=temp, ext=ext, owner=owner))
                 out.append(dict(c, pre=c["pre"] + [["alt/lt", False]]))
-    return out + directed_histories() + directed_remakes() + directed_ctx() + directed_doers()
+    return out + directed_histories() + directed_remakes() + directed_ctx() + directed_doers() + directed_rel()
 
 
 def rand_path(rng):
@@ -243,6 +245,58 @@ def directed_doers():
     return out
 
 
+REL_PRE = [["cw1/data", False], ["cw2/data", False], ["home/data", False], ["cw1/a/data", False], ["cw2/a", False]]
+
+
+def rel_case(c, relhead, cwd0, hops, twin=True):
+    """a Filer with a relative headDirPath, constructed in cwd0, with chdir calls in its history; `twin` puts another
+    instance's resources at the same relative place under the other working directory"""
+    pre = list(REL_PRE)
+    if twin:
+        p = expected_rel(c)                   # head/hio/...
+        for cw in ("cw1", "cw2"):
+            q = cw + "/data/" + p[len("head/"):]
+            d = posixpath.dirname(q)
+            pre += [[d + "/sib.text", True], [d + "/other", True]]
+            if cw != cwd0 and not c["temp"]:
+                pre.append([q, bool(c["filed"] or c["ext"])] if (c["filed"] or c["ext"]) else [q + "/theirs", True])
+    return dict(c, pre=pre, relhead=relhead, cwd0=cwd0, hops=[list(h) for h in hops])
+
+
+def directed_rel():
+    R, C, D = "reopen", "close", "chdir"
+    out = []
+    for filed, ext in [(True, False), (False, False), (False, True)]:
+        for relhead in ("data", "./data", "a/../data", "~/data"):
+            c = mk("x", "b", filed=filed, ext=ext)
+            out += [
+                rel_case(c, relhead, "cw1", [(D, "cw2"), (C, True)]),                                   # seeded C29-8
+                rel_case(c, relhead, "cw1", [(D, "cw2"), (R, None, None, True, False, False), (D, "cw1"), (C, True)]),
+                rel_case(c, relhead, "cw1", [(C, False), (D, "cw2"), (R, None, None, False, True, False), (C, True)]),
+                rel_case(c, relhead, "cw2", [(D, "cw1"), (R, None, None, False, False, True), (D, "cw2"), (C, True)]),
+                rel_case(c, relhead, "cw1", [(D, "cw2"), ("doer", None, False, [[C, False]]), (C, True)]),
+            ]
+        out.append(rel_case(mk("x", "b", temp=True, filed=filed, ext=ext), "data", "cw1", [(D, "cw2"), (R, False, None, True, False, False), (D, "cw1"), (C, True)]))
+    return out
+
+
+def random_rel(rng):
+    c = mk(rng.choice(["x", "x.y", "a/x"]), rng.choice(["b", "", "b/c"]), rng.random() < 0.2, False,
+           rng.random() < 0.5, rng.random() < 0.35, "text")
+    hops = []
+    for _ in range(rng.choice([1, 2, 3, 4])):
+        r = rng.random()
+        if r < 0.4:
+            hops.append(["chdir", rng.choice(["cw1", "cw2", "cw1/a", "home"])])
+        elif r < 0.7:
+            hops.append(["reopen", rng.choice([None, None, True, False]), None, rng.random() < 0.6, rng.random() < 0.35, False])
+        else:
+            hops.append(["close", rng.random() < 0.7])
+    hops += [["chdir", rng.choice(["cw1", "cw2"])], ["close", True]]
+    return rel_case(c, rng.choice(["data", "./data", "a/../data", "~/data", "data/", "./a/.././data"]),
+                    rng.choice(["cw1", "cw2"]), hops, twin=rng.random() < 0.7)
+
+
 def random_history(rng):
     c = mk(rng.choice(["x", "x", "x.y", "a/x", "x", ".h"]), rng.choice(["b", "b", "", "b/c"]),
            rng.random() < 0.4, rng.random() < 0.25, rng.random() < 0.5, rng.random() < 0.35, "text")
@@ -276,6 +330,7 @@ def random_history(rng):
 def generate(rng, tier):
     out = [random_case(rng) for _ in range(900 if tier == "quick" else 6000)]
     out += [random_history(rng) for _ in range(300 if tier == "quick" else 3000)]
+    out += [random_rel(rng) for _ in range(150 if tier == "quick" else 1500)]
     if tier == "thorough":
         segs = ["a", "x.y", "..", ".", "", ".h"]
         paths = [""] + segs[:3] + ["/".join(p) for p in itertools.product(segs, repeat=2)]
@@ -340,6 +395,7 @@ def run_impl(case):
         TempHeadDir = os.path.join(root, "tmp")
 
     filer = None
+    cwd_before, home_before = os.getcwd(), os.environ.get("HOME")
     try:
         for rel, isf in case["pre"]:
             full = os.path.join(root, rel)
@@ -353,22 +409,30 @@ def run_impl(case):
                 os.makedirs(full, exist_ok=True)
         tmap = {}
         obs = {"pre": _snapshot(root, tmap)}
-        kw = dict(name=case["name"], base=case["base"], temp=case["temp"], headDirPath=os.path.join(root, "head"),
+        head_arg = os.path.join(root, "head")
+        if case.get("relhead") is not None:
+            # a relative headDirPath: resolved by remake against the working directory of that moment ("~": HOME)
+            head_arg = case["relhead"]
+            os.environ["HOME"] = os.path.join(root, "home")
+            os.chdir(os.path.join(root, case["cwd0"]))
+        kw = dict(name=case["name"], base=case["base"], temp=case["temp"], headDirPath=head_arg,
                   clean=case["clean"], filed=case["filed"], extensioned=case["ext"], fext=case["fext"], reopen=True)
 
         def observe(filer, hop, r):
             obs["hops_run"].append(hop)
             obs["hops"].append({"res": r, "path": _relpath(filer.path, root, tmap), "temp": bool(filer.temp),
-                                "snap": _snapshot(root, tmap)})
+                                "abs": filer.path is None or os.path.isabs(filer.path), "snap": _snapshot(root, tmap)})
 
         def do_call(filer, hop):
             """one plain call on the filer; returns True when it raised (a rejected remake() changes nothing)"""
             try:
-                if hop[0] == "close":
+                if hop[0] == "chdir":
+                    os.chdir(os.path.join(root, hop[1]))
+                elif hop[0] == "close":
                     filer.close(clear=hop[1])
                 elif hop[0] == "remake":
                     _, nm, bs, temp, clean, filed, ext, fext = hop
-                    _, fl = filer.remake(name=nm, base=bs, temp=temp, headDirPath=os.path.join(root, "head"),
+                    _, fl = filer.remake(name=nm, base=bs, temp=temp, headDirPath=head_arg,
                                          clean=clean, filed=filed, extensioned=ext, fext=fext)
                     if fl is not None:
                         fl.close()
@@ -448,6 +512,7 @@ def run_impl(case):
                     filer = f
                     obs["mid"] = _snapshot(root, tmap)
                     obs["open"] = ["ok", _relpath(filer.path, root, tmap)]
+                    obs["open_abs"] = os.path.isabs(filer.path)
                     if run_hops(filer) or ctx["raise"]:
                         raise Boom()
             except Boom:
@@ -465,6 +530,7 @@ def run_impl(case):
             filer = SandboxFiler(**kw)
             obs["mid"] = _snapshot(root, tmap)
             obs["open"] = ["ok", _relpath(filer.path, root, tmap)]
+            obs["open_abs"] = os.path.isabs(filer.path)
         except Exception as ex:
             obs["open"] = ["exc", exn_kind(ex)]
             obs["mid"] = _snapshot(root, tmap)
@@ -496,6 +562,11 @@ def run_impl(case):
             obs["post"] = _snapshot(root, tmap)
         return obs
     finally:
+        os.chdir(cwd_before)
+        if home_before is None:
+            os.environ.pop("HOME", None)
+        else:
+            os.environ["HOME"] = home_before
         if filer is not None and filer.file and not filer.file.closed:
             filer.file.close()
         shutil.rmtree(outer, ignore_errors=True)
@@ -505,6 +576,27 @@ def run_impl(case):
 
 H, A, T = ["head"], ["alt"], ["tmp", "T0"]
 TMP = ["tmp"]
+
+
+def heads(case):
+    """the persistent head directories of the case: head, or a relative head resolved against every working directory
+    the history visits ("~" against home)"""
+    if case.get("relhead") is None:
+        return [H]
+    rel = case["relhead"]
+    if rel.split("/")[0] == "~":
+        return [posixpath.normpath("home/" + rel[1:].lstrip("/")).split("/")]
+    cwds = [case["cwd0"]] + [h[1] for h in case.get("hops") or [] if h[0] == "chdir"]
+    out = []
+    for c in cwds:
+        h = posixpath.normpath(posixpath.join(c, rel)).split("/")
+        if h not in out:
+            out.append(h)
+    return out
+
+
+def _in_heads(case, p, strict=True):
+    return any(_under(h, p, strict) for h in heads(case))
 
 
 def _under(head, p, strict=True):
@@ -522,12 +614,15 @@ def oracle(case, obs):
         if case["temp"]:
             if not _under(T, p, strict=False):
                 return f"constructor created or deleted {'/'.join(p)} outside its temp head tmp/T0"
-        elif not (_under(H, p) or _under(A, p)):
+        elif not (_in_heads(case, p) or _under(A, p)):
             return f"constructor created or deleted {'/'.join(p)} outside its head directory"
     if obs["open"][0] != "ok":
         return None
     P = obs["open"][1]
-    own = T if case["temp"] else (H if _under(H, P, strict=False) or not _under(A, P, strict=False) else A)
+    if not obs.get("open_abs", True):
+        return f"Filer.path {'/'.join(P)} is not absolute after construction with headDirPath={case.get('relhead')!r}"
+    own = T if case["temp"] else (next((h for h in heads(case) if _under(h, P, strict=False)), heads(case)[0])
+                                  if _in_heads(case, P, strict=False) or not _under(A, P, strict=False) else A)
     if not _under(own, P):
         return f".path {'/'.join(P) or '(sandbox root)'} is not inside its head directory {'/'.join(own)}"
     if obs.get("hops"):
@@ -568,6 +663,12 @@ def _oracle_history(case, obs, P):
             return None
         clear = hop[1] if hop[0] == "close" else (hop[3] if hop[0] == "reopen" else False)
         what = f"hop {n} {hop[0]}({', '.join(map(str, hop[1:]))})"
+        if not o.get("abs", True):
+            return f"{what}: Filer.path is not absolute"
+        if hop[0] == "chdir":
+            if before != after:
+                return f"{what} changed the tree"
+            continue
         if hop[0] == "doerenter" and opened:
             if before != after or o["path"] != P or o["temp"] != temp_now:
                 return (f"{what}: FilerDoer.enter on an opened Filer changed it: path {'/'.join(P or [])} -> "
@@ -584,14 +685,15 @@ def _oracle_history(case, obs, P):
         th = _temp_head(P)
         for p in map(list, sorted(before - after)):
             ok = clear and P is not None and (_under(th, p, strict=False) if th else _under(P, p, strict=False))
-            ok = ok or (clean and (_under(H + ["hio", "clean"], p, strict=False) or _under(A + [".hio", "clean"], p, strict=False)))
+            ok = ok or (clean and (any(_under(h + ["hio", "clean"], p, strict=False) for h in heads(case))
+                                   or _under(A + [".hio", "clean"], p, strict=False)))
             if not ok:
                 return (f"{what} deleted {'/'.join(p)}, which is not at or below the Filer's own previous path "
                         f"{'/'.join(P or [])}")
         for p in map(list, sorted(after - before)):
             if hop[0] in ("close", "exit", "doerexit"):
                 return f"{what} created {'/'.join(p)}"
-            if not (_under(H, p) or _under(A, p) or _under(TMP, p)):
+            if not (_in_heads(case, p) or _under(A, p) or _under(TMP, p)):
                 return f"{what} created {'/'.join(p)} outside every head directory"
             if hop[0] == "remake" and _under(TMP, p) and not hop[3]:
                 return f"{what} created {'/'.join(p)} in the temp directory without temp"
@@ -665,36 +767,42 @@ def to_coq(case, obs):
            "Path.c_ext := %s; Path.c_fext := %s; Path.c_head := %s; Path.c_alt := %s; Path.c_tmp := %s |}" % (
                _path(case["name"].split("/")), _path(case["base"].split("/")), coq_bool(case["temp"]),
                coq_bool(case["clean"]), coq_bool(case["filed"]), coq_bool(case["ext"]), _seg(case["fext"]),
-               _path(H), _path(A), _path(T)))
+               _path(heads(case)[0] if case.get("relhead") is not None else H), _path(A), _path(T)))
     ok = obs["open"][0] == "ok" and not obs.get("hops")
     hops, hobs = [], []
     for hop, o in zip(obs.get("hops_run") or [], obs.get("hops") or []):
-        if hop[0] == "close":
-            hops.append(f"(Path.H (Path.HClose {coq_bool(hop[1])}))")
+        if hop[0] == "chdir":
+            hops.append(f"(Path.HChdir {_path(hop[1].split('/'))})")
+        elif hop[0] == "close":
+            hops.append(f"(Path.H3 (Path.H (Path.HClose {coq_bool(hop[1])})))")
         elif hop[0] == "exit":
-            hops.append(f"(Path.H (Path.HExit {coq_bool(hop[1])}))")
+            hops.append(f"(Path.H3 (Path.H (Path.HExit {coq_bool(hop[1])})))")
         elif hop[0] == "doerenter":
-            hops.append("(Path.HDoerEnter %s)" % ("None" if hop[1] is None else f"(Some {coq_bool(hop[1])})"))
+            hops.append("(Path.H3 (Path.HDoerEnter %s))" % ("None" if hop[1] is None else f"(Some {coq_bool(hop[1])})"))
         elif hop[0] == "doerexit":
-            hops.append("Path.HDoerExit")
+            hops.append("(Path.H3 Path.HDoerExit)")
         elif hop[0] == "remake":
             _, nm, bs, temp, clean, filed, ext, fext = hop
-            hops.append("(Path.H (Path.HRemake %s %s %s %s %s %s %s))" % (
+            hops.append("(Path.H3 (Path.H (Path.HRemake %s %s %s %s %s %s %s)))" % (
                 _path(nm.split("/")), _path(bs.split("/")), coq_bool(temp), coq_bool(clean), coq_bool(filed),
                 coq_bool(ext), _seg(fext)))
         else:
             _, temp, fext, clear, reuse, clean = hop
-            hops.append("(Path.H (Path.HReopen %s %s %s %s %s))" % (
+            hops.append("(Path.H3 (Path.H (Path.HReopen %s %s %s %s %s)))" % (
                 "None" if temp is None else f"(Some {coq_bool(temp)})",
                 "None" if fext is None else f"(Some {_seg(fext)})", coq_bool(clear), coq_bool(reuse), coq_bool(clean)))
         hobs.append("(%s, %s, %s, %s)" % (coq_res(o["res"], lambda _: "tt"),
                                           "None" if o["path"] is None else f"(Some {_path(o['path'])})",
                                           coq_bool(o["temp"]), _fs(o["snap"])))
+    rel = "None"
+    if case.get("relhead") is not None:
+        rel = "(Some ({| Path.rh_segs := %s; Path.rh_home := %s |}, %s))" % (
+            _path(case["relhead"].split("/")), _path(["home"]), _path(case["cwd0"].split("/")))
     return ("{| Path.k_cfg := %s; Path.k_pre := %s; Path.k_open := %s; Path.k_mid := %s; Path.k_owner := %s; "
-            "Path.k_clear := %s; Path.k_post := %s; Path.k_hops := %s; Path.k_hobs := %s |}" % (
+            "Path.k_clear := %s; Path.k_post := %s; Path.k_rel := %s; Path.k_hops := %s; Path.k_hobs := %s |}" % (
                 cfg, _fs(obs["pre"]), coq_res(obs["open"], _path), _fs(obs["mid"]), coq_nat(min(case["owner"], 3)),
-                coq_res(obs["clear"], lambda _: "tt") if ok else "(Ok tt)", _fs(obs["post"]) if ok else _fs([]),
-                coq_list(hops, "Path.hop2"), coq_list(hobs, "res unit * option Path.path * bool * Path.fsys")))
+                coq_res(obs["clear"], lambda _: "tt") if ok else "(Ok tt)", _fs(obs["post"]) if ok else _fs([]), rel,
+                coq_list(hops, "Path.hop3"), coq_list(hobs, "res unit * option Path.path * bool * Path.fsys")))
 
 
 def distribution(cases, obs):
